@@ -177,7 +177,24 @@ def _frame(S, lo, hi, off, nx):
 
 def _drive(case, ctx, make_reduction, S, lid, strategy, scitype, n, wl, fh, nx, off, hmax, n_upd):
     reg = spies.SpyTabularRegressor(log_id=lid) if scitype == "tabular-regressor" else spies.SpyPanelRegressor(log_id=lid)
-    f = make_reduction(reg, strategy=strategy, window_length=wl, scitype=scitype if case["dseed"] % 2 else "infer")
+    # the three public ways to get a reduction forecaster: make_reduction and the two older factory functions (still exported)
+    way = case["dseed"] % 7
+    if way == 5:
+        import warnings
+        from sktime.forecasting.compose import ReducedForecaster
+        with warnings.catch_warnings():
+            warnings.simplefilter("ignore")
+            f = ReducedForecaster(reg, scitype=scitype if case["dseed"] % 2 else "infer", strategy=strategy, window_length=wl)
+        ctx.tag("factory:ReducedForecaster")
+    elif way == 6:
+        import warnings
+        from sktime.forecasting.compose._reduce import ReducedRegressionForecaster
+        with warnings.catch_warnings():
+            warnings.simplefilter("ignore")
+            f = ReducedRegressionForecaster(reg, scitype, strategy=strategy, window_length=wl)
+        ctx.tag("factory:ReducedRegressionForecaster")
+    else:
+        f = make_reduction(reg, strategy=strategy, window_length=wl, scitype=scitype if case["dseed"] % 2 else "infer")
     y, X = _frame(S, 0, n, off, nx)
     need_fit_fh = strategy != "recursive"
     fh_in = case["fh_in"]
